@@ -7,6 +7,7 @@ import (
 	"fmt"
 	"io"
 	"io/ioutil"
+	"os"
 	"strings"
 	"sync"
 	"sync/atomic"
@@ -180,8 +181,9 @@ func runFaultCase(o *Out, c fltCase) {
 	res := ""
 	select {
 	case <-done:
-	case <-time.After(15 * time.Second):
+	case <-time.After(10 * time.Second):
 		res = "hang"
+		hangCount++
 	}
 	atomic.StoreInt32(&returned, 1)
 	if res == "" {
@@ -206,7 +208,10 @@ func runFaultCase(o *Out, c fltCase) {
 		default:
 			res = classifyFS(err, waitBase)
 		}
-		if !fs.IsTerminated() {
+		// Run may return while a Shutdown started by another goroutine is still completing: give it a moment
+		select {
+		case <-fs.Terminated():
+		case <-time.After(2 * time.Second):
 			res += "+notterminated"
 		}
 	}
@@ -218,7 +223,13 @@ func runFaultCase(o *Out, c fltCase) {
 	o.Impl("fsend %s", res)
 	mu.Unlock()
 	o.End()
+	if hangCount >= 2 { // every further hang costs a full watchdog period: two witnesses are enough
+		o.Flush()
+		os.Exit(3)
+	}
 }
+
+var hangCount int
 
 func suiteFaults(o *Out, r *Rng, n int, tier string) {
 	for i := 0; i < n; i++ {
